@@ -83,7 +83,7 @@ m("c01-lookaround-loops-never-poll", "C01", RVM, _only_main_loop_polls, None)
 m("c02-exit-cleanup-no-pops", "C02", CMP, "                if pop_operands:\n                    for _ in range(saved_loop_stack[li].stack_items):\n                        self._emit(OpCode.POP)\n                li -= 1\n            elif ti > stop_try:", "                li -= 1\n            elif ti > stop_try:")
 m("c07-exit-cleanup-skips-innermost-try", "C07", CMP, "        ti = len(saved_try_stack) - 1\n        while li > stop_loop or ti > stop_try:", "        ti = len(saved_try_stack) - 2\n        while li > stop_loop or ti > stop_try:")
 m("c07-break-runs-all-finalizers", "C07", CMP, "            stop_try = target.try_depth - 1", "            stop_try = -1")
-m("c07-return-value-not-parked", "C07", CMP, "                    self._emit(OpCode.STORE_LOCAL, slot)\n                    self._emit(OpCode.POP)\n                    self._emit_exit_cleanup()\n                    self._emit(OpCode.LOAD_LOCAL, slot)", "                    self._emit_exit_cleanup(pop_operands=False)")
+m("c02-return-value-not-parked", "C02", CMP, "                    self._emit(OpCode.STORE_LOCAL, slot)\n                    self._emit(OpCode.POP)\n                    self._emit_exit_cleanup()\n                    self._emit(OpCode.LOAD_LOCAL, slot)", "                    self._emit_exit_cleanup(pop_operands=False)")
 m("c07-finally-inlined-in-exit-site-loops", "C07", CMP, "                    self.loop_stack = saved_loop_stack[: try_ctx.loop_depth]\n", "")
 m("c07-builtin-errors-uncatchable", "C07", VM, "                self._handle_python_exception(e.name, e.message)\n", "                raise\n")
 m("c07-limit-errors-catchable", "C01", VM, "isinstance(e, (TimeLimitError, MemoryLimitError))", "isinstance(e, MemoryLimitError)", 2)
